@@ -12,6 +12,9 @@ Inductive perr : Type :=
 
 Inductive pres : Type := POk (l : list Z) | PErr (e : perr).
 
+Lemma POk_inj a b : POk a = POk b -> a = b.
+Proof. intros H. change (match POk a with POk x => x | PErr _ => a end = b). rewrite H. reflexivity. Qed.
+
 Definition gl (l : list Z) (i : nat) : Z := nth i l 0.
 Definition gls (l : list Z) (from n : nat) : list Z := map (gl l) (seq from n).
 
@@ -38,127 +41,135 @@ Definition is_pure (o : op) : bool :=
   | _ => true
   end.
 
-Definition pure_op (o : op) (l : list Z) : pres :=
+Definition pure_op_gen (R : nat -> list Z -> list Z -> list Z) (o : op) (l : list Z) : pres :=
   let g := gl l in
   match o with
   | Noop => POk l
-  | Assert code => if Z.eqb (g 0%nat) 1 then POk (replace_l 1 [] l) else PErr (PAssert code)
-  | SDepth => POk (replace_l 0 [Z.of_nat (length l)] l)
-  | Add => POk (replace_l 2 [fadd (g 1%nat) (g 0%nat)] l)
-  | Neg => POk (replace_l 1 [fneg (g 0%nat)] l)
-  | Mul => POk (replace_l 2 [fmul (g 1%nat) (g 0%nat)] l)
-  | Inv => if Z.eqb (g 0%nat) 0 then PErr PDivZero else POk (replace_l 1 [finv (g 0%nat)] l)
-  | Incr => POk (replace_l 1 [fadd (g 0%nat) 1] l)
+  | Assert code => if Z.eqb (g 0%nat) 1 then POk (R 1%nat [] l) else PErr (PAssert code)
+  | SDepth => POk (R 0%nat [Z.of_nat (length l)] l)
+  | Add => POk (R 2%nat [fadd (g 1%nat) (g 0%nat)] l)
+  | Neg => POk (R 1%nat [fneg (g 0%nat)] l)
+  | Mul => POk (R 2%nat [fmul (g 1%nat) (g 0%nat)] l)
+  | Inv => if Z.eqb (g 0%nat) 0 then PErr PDivZero else POk (R 1%nat [finv (g 0%nat)] l)
+  | Incr => POk (R 1%nat [fadd (g 0%nat) 1] l)
   | And =>
       let b := g 0%nat in let a := g 1%nat in
       if negb (is_bin b) then PErr (PNotBinary b)
       else if negb (is_bin a) then PErr (PNotBinary a)
-      else POk (replace_l 2 [if Z.eqb a 1 && Z.eqb b 1 then 1 else 0] l)
+      else POk (R 2%nat [if Z.eqb a 1 && Z.eqb b 1 then 1 else 0] l)
   | Or =>
       let b := g 0%nat in let a := g 1%nat in
       if negb (is_bin b) then PErr (PNotBinary b)
       else if negb (is_bin a) then PErr (PNotBinary a)
-      else POk (replace_l 2 [if Z.eqb a 1 || Z.eqb b 1 then 1 else 0] l)
+      else POk (R 2%nat [if Z.eqb a 1 || Z.eqb b 1 then 1 else 0] l)
   | Not =>
       let a := g 0%nat in
-      if negb (is_bin a) then PErr (PNotBinary a) else POk (replace_l 1 [fsub 1 a] l)
-  | OpEq => POk (replace_l 2 [if Z.eqb (g 1%nat) (g 0%nat) then 1 else 0] l)
-  | Eqz => POk (replace_l 1 [if Z.eqb (g 0%nat) 0 then 1 else 0] l)
+      if negb (is_bin a) then PErr (PNotBinary a) else POk (R 1%nat [fsub 1 a] l)
+  | OpEq => POk (R 2%nat [if Z.eqb (g 1%nat) (g 0%nat) then 1 else 0] l)
+  | Eqz => POk (R 1%nat [if Z.eqb (g 0%nat) 0 then 1 else 0] l)
   | Expacc =>
       let base := g 1%nat in let acc := g 2%nat in let b := g 3%nat in
       let bit := Z.land b 1 in
       let value := if Z.eqb bit 1 then base else 1 in
-      POk (replace_l 4 [bit; fmul base base; fmul acc value; Z.shiftr b 1] l)
+      POk (R 4%nat [bit; fmul base base; fmul acc value; Z.shiftr b 1] l)
   | Ext2Mul =>
       let a0 := g 3%nat in let a1 := g 2%nat in let b0 := g 1%nat in let b1 := g 0%nat in
-      POk (replace_l 4
+      POk (R 4%nat
             [b1; b0;
              fsub (fmul (fadd b0 b1) (fadd a1 a0)) (fmul b0 a0);
              fsub (fmul b0 a0) (fmul (fmul 2 b1) a1)] l)
-  | U32split => let a := g 0%nat in POk (replace_l 1 [hi32 a; lo32 a] l)
+  | U32split => let a := g 0%nat in POk (R 1%nat [hi32 a; lo32 a] l)
   | U32assert2 code =>
       let a := g 0%nat in let b := g 1%nat in
       if negb (u32max_ok a) then PErr (PNotU32 a code)
       else if negb (u32max_ok b) then PErr (PNotU32 b code)
       else POk l
-  | U32add => let r := fadd (g 1%nat) (g 0%nat) in POk (replace_l 2 [hi32 r; lo32 r] l)
+  | U32add => let r := fadd (g 1%nat) (g 0%nat) in POk (R 2%nat [hi32 r; lo32 r] l)
   | U32add3 =>
       let r := felt_of_u64 (wrap64 (g 2%nat + g 1%nat + g 0%nat)) in
-      POk (replace_l 3 [hi32 r; lo32 r] l)
+      POk (R 3%nat [hi32 r; lo32 r] l)
   | U32sub =>
-      let r := wrap64 (g 1%nat - g 0%nat) in POk (replace_l 2 [Z.shiftr r 63; lo32 r] l)
+      let r := wrap64 (g 1%nat - g 0%nat) in POk (R 2%nat [Z.shiftr r 63; lo32 r] l)
   | U32mul =>
-      let r := felt_of_u64 (wrap64 (g 1%nat * g 0%nat)) in POk (replace_l 2 [hi32 r; lo32 r] l)
+      let r := felt_of_u64 (wrap64 (g 1%nat * g 0%nat)) in POk (R 2%nat [hi32 r; lo32 r] l)
   | U32madd =>
       let r := felt_of_u64 (wrap64 (g 1%nat * g 0%nat + g 2%nat)) in
-      POk (replace_l 3 [hi32 r; lo32 r] l)
+      POk (R 3%nat [hi32 r; lo32 r] l)
   | U32div =>
       let b := g 0%nat in let a := g 1%nat in
       if Z.eqb b 0 then PErr PDivZero
-      else let q := a / b in POk (replace_l 2 [a - q * b; q] l)
+      else let q := a / b in POk (R 2%nat [a - q * b; q] l)
   | U32and =>
       let b := g 0%nat in let a := g 1%nat in
       if negb (u32max_ok a) then PErr (PNotU32 a 0)
       else if negb (u32max_ok b) then PErr (PNotU32 b 0)
-      else POk (replace_l 2 [Z.land a b] l)
+      else POk (R 2%nat [Z.land a b] l)
   | U32xor =>
       let b := g 0%nat in let a := g 1%nat in
       if negb (u32max_ok a) then PErr (PNotU32 a 0)
       else if negb (u32max_ok b) then PErr (PNotU32 b 0)
-      else POk (replace_l 2 [Z.lxor a b] l)
-  | Pad => POk (replace_l 0 [0] l)
-  | Drop => POk (replace_l 1 [] l)
-  | Dup0 => POk (replace_l 0 [g 0%nat] l)
-  | Dup1 => POk (replace_l 0 [g 1%nat] l)
-  | Dup2 => POk (replace_l 0 [g 2%nat] l)
-  | Dup3 => POk (replace_l 0 [g 3%nat] l)
-  | Dup4 => POk (replace_l 0 [g 4%nat] l)
-  | Dup5 => POk (replace_l 0 [g 5%nat] l)
-  | Dup6 => POk (replace_l 0 [g 6%nat] l)
-  | Dup7 => POk (replace_l 0 [g 7%nat] l)
-  | Dup9 => POk (replace_l 0 [g 9%nat] l)
-  | Dup11 => POk (replace_l 0 [g 11%nat] l)
-  | Dup13 => POk (replace_l 0 [g 13%nat] l)
-  | Dup15 => POk (replace_l 0 [g 15%nat] l)
-  | Swap => POk (replace_l 2 [g 1%nat; g 0%nat] l)
-  | SwapW => POk (replace_l 8 (gls l 4 4 ++ gls l 0 4) l)
-  | SwapW2 => POk (replace_l 12 (gls l 8 4 ++ gls l 4 4 ++ gls l 0 4) l)
-  | SwapW3 => POk (replace_l 16 (gls l 12 4 ++ gls l 4 4 ++ gls l 8 4 ++ gls l 0 4) l)
-  | SwapDW => POk (replace_l 16 (gls l 8 8 ++ gls l 0 8) l)
-  | MovUp2 => POk (replace_l 3 (g 2%nat :: gls l 0 2) l)
-  | MovUp3 => POk (replace_l 4 (g 3%nat :: gls l 0 3) l)
-  | MovUp4 => POk (replace_l 5 (g 4%nat :: gls l 0 4) l)
-  | MovUp5 => POk (replace_l 6 (g 5%nat :: gls l 0 5) l)
-  | MovUp6 => POk (replace_l 7 (g 6%nat :: gls l 0 6) l)
-  | MovUp7 => POk (replace_l 8 (g 7%nat :: gls l 0 7) l)
-  | MovUp8 => POk (replace_l 9 (g 8%nat :: gls l 0 8) l)
-  | MovDn2 => POk (replace_l 3 (gls l 1 2 ++ [g 0%nat]) l)
-  | MovDn3 => POk (replace_l 4 (gls l 1 3 ++ [g 0%nat]) l)
-  | MovDn4 => POk (replace_l 5 (gls l 1 4 ++ [g 0%nat]) l)
-  | MovDn5 => POk (replace_l 6 (gls l 1 5 ++ [g 0%nat]) l)
-  | MovDn6 => POk (replace_l 7 (gls l 1 6 ++ [g 0%nat]) l)
-  | MovDn7 => POk (replace_l 8 (gls l 1 7 ++ [g 0%nat]) l)
-  | MovDn8 => POk (replace_l 9 (gls l 1 8 ++ [g 0%nat]) l)
+      else POk (R 2%nat [Z.lxor a b] l)
+  | Pad => POk (R 0%nat [0] l)
+  | Drop => POk (R 1%nat [] l)
+  | Dup0 => POk (R 0%nat [g 0%nat] l)
+  | Dup1 => POk (R 0%nat [g 1%nat] l)
+  | Dup2 => POk (R 0%nat [g 2%nat] l)
+  | Dup3 => POk (R 0%nat [g 3%nat] l)
+  | Dup4 => POk (R 0%nat [g 4%nat] l)
+  | Dup5 => POk (R 0%nat [g 5%nat] l)
+  | Dup6 => POk (R 0%nat [g 6%nat] l)
+  | Dup7 => POk (R 0%nat [g 7%nat] l)
+  | Dup9 => POk (R 0%nat [g 9%nat] l)
+  | Dup11 => POk (R 0%nat [g 11%nat] l)
+  | Dup13 => POk (R 0%nat [g 13%nat] l)
+  | Dup15 => POk (R 0%nat [g 15%nat] l)
+  | Swap => POk (R 2%nat [g 1%nat; g 0%nat] l)
+  | SwapW => POk (R 8%nat (gls l 4 4 ++ gls l 0 4) l)
+  | SwapW2 => POk (R 12%nat (gls l 8 4 ++ gls l 4 4 ++ gls l 0 4) l)
+  | SwapW3 => POk (R 16%nat (gls l 12 4 ++ gls l 4 4 ++ gls l 8 4 ++ gls l 0 4) l)
+  | SwapDW => POk (R 16%nat (gls l 8 8 ++ gls l 0 8) l)
+  | MovUp2 => POk (R 3%nat (g 2%nat :: gls l 0 2) l)
+  | MovUp3 => POk (R 4%nat (g 3%nat :: gls l 0 3) l)
+  | MovUp4 => POk (R 5%nat (g 4%nat :: gls l 0 4) l)
+  | MovUp5 => POk (R 6%nat (g 5%nat :: gls l 0 5) l)
+  | MovUp6 => POk (R 7%nat (g 6%nat :: gls l 0 6) l)
+  | MovUp7 => POk (R 8%nat (g 7%nat :: gls l 0 7) l)
+  | MovUp8 => POk (R 9%nat (g 8%nat :: gls l 0 8) l)
+  | MovDn2 => POk (R 3%nat (gls l 1 2 ++ [g 0%nat]) l)
+  | MovDn3 => POk (R 4%nat (gls l 1 3 ++ [g 0%nat]) l)
+  | MovDn4 => POk (R 5%nat (gls l 1 4 ++ [g 0%nat]) l)
+  | MovDn5 => POk (R 6%nat (gls l 1 5 ++ [g 0%nat]) l)
+  | MovDn6 => POk (R 7%nat (gls l 1 6 ++ [g 0%nat]) l)
+  | MovDn7 => POk (R 8%nat (gls l 1 7 ++ [g 0%nat]) l)
+  | MovDn8 => POk (R 9%nat (gls l 1 8 ++ [g 0%nat]) l)
   | CSwap =>
       let c := g 0%nat in let b := g 1%nat in let a := g 2%nat in
-      if Z.eqb c 0 then POk (replace_l 3 [b; a] l)
-      else if Z.eqb c 1 then POk (replace_l 3 [a; b] l)
+      if Z.eqb c 0 then POk (R 3%nat [b; a] l)
+      else if Z.eqb c 1 then POk (R 3%nat [a; b] l)
       else PErr (PNotBinary c)
   | CSwapW =>
       let c := g 0%nat in
-      if Z.eqb c 0 then POk (replace_l 9 (gls l 1 4 ++ gls l 5 4) l)
-      else if Z.eqb c 1 then POk (replace_l 9 (gls l 5 4 ++ gls l 1 4) l)
+      if Z.eqb c 0 then POk (R 9%nat (gls l 1 4 ++ gls l 5 4) l)
+      else if Z.eqb c 1 then POk (R 9%nat (gls l 5 4 ++ gls l 1 4) l)
       else PErr (PNotBinary c)
-  | Push v => POk (replace_l 0 [v] l)
-  | HPerm => POk (replace_l 12 (rev (rpo_permute (rev (gls l 0 12)))) l)
+  | Push v => POk (R 0%nat [v] l)
+  | HPerm => POk (R 12%nat (rev (rpo_permute (rev (gls l 0 12)))) l)
   | _ => PErr PImpure
   end.
 
-Fixpoint pure_ops (ops : list op) (l : list Z) : pres :=
+Definition pure_op : op -> list Z -> pres := pure_op_gen replace_l.
+
+(* the same operations on the zero-extended view of the stack: no padding, no depth test *)
+Definition vreplace (k : nat) (new : list Z) (l : list Z) : list Z := new ++ skipn k l.
+Definition vpure_op : op -> list Z -> pres := pure_op_gen vreplace.
+
+Fixpoint pure_ops_gen (R : nat -> list Z -> list Z -> list Z) (ops : list op) (l : list Z) : pres :=
   match ops with
   | [] => POk l
-  | o :: rest => match pure_op o l with POk l' => pure_ops rest l' | PErr e => PErr e end
+  | o :: rest => match pure_op_gen R o l with POk l' => pure_ops_gen R rest l' | PErr e => PErr e end
   end.
+Definition pure_ops := pure_ops_gen replace_l.
+Definition vpure_ops := pure_ops_gen vreplace.
 
 (* depth never drops below 16 *)
 Lemma replace_l_len k new l :
